@@ -24,7 +24,7 @@ def _judge(run):
 
 P = ScenarioProperty(
     PROP,
-    {"levels": (2, 3), "cap": (8, 12), "sprout_kinds": ["simple", "nbc", "composed", "composed", "composed"], "force_far": True, "second_run": True, "generators": ["NBC", "NBC", "NBC", "NBCLocal", "BestPerDeme", "Scripted"], "level_limit_min": 2, "gsc_kinds": ["MetaepochLimit", "SingularProblemEvalLimitReached", "FitnessEvalLimitReached", "AllStopped"]},
+    {"levels": (2, 3), "cap": (8, 12), "families": ["sphere", "rastrigin", "step", "linear", "constant", "abssum", "twobasin", "offset", "infwall"], "sprout_kinds": ["simple", "nbc", "composed", "composed", "composed"], "force_far": True, "second_run": True, "generators": ["NBC", "NBC", "NBC", "NBCLocal", "BestPerDeme", "Scripted"], "level_limit_min": 2, "gsc_kinds": ["MetaepochLimit", "SingularProblemEvalLimitReached", "FitnessEvalLimitReached", "AllStopped"]},
     lambda sc: [C09Checker(sc)],
     _judge,
     quick=1600,
